@@ -592,6 +592,9 @@ def _defs_of(fi, name):
 
 
 def run(ctx):
+    from .c13 import r7_exists_answer
+
+    r7_exists_answer(ctx, rule='C03.R6')
     r1_snapshot_last(ctx)
     r2_delete_order(ctx)
     r3_no_swallow(ctx)
